@@ -58,6 +58,14 @@ def _index_module(mod: str, tree: ast.Module) -> dict[int, str]:
             return
         if isinstance(node, ast.Expr) and isinstance(node.value, ast.Constant) and isinstance(node.value.value, str):
             return  # docstring
+        if isinstance(node, ast.BinOp) and isinstance(node.op, (ast.BitAnd, ast.BitOr, ast.BitXor, ast.LShift, ast.RShift)):
+            # masks and shift widths (0x80, 0x7F, 64 of a varint decoder) are part of an encoding, not thresholds
+            for child in (node.left, node.right):
+                if not isinstance(child, ast.Constant):
+                    visit(child, scope, in_func, None)
+            return
+        if isinstance(node, ast.AugAssign) and isinstance(node.op, (ast.BitAnd, ast.BitOr, ast.BitXor, ast.LShift, ast.RShift)) and isinstance(node.value, ast.Constant):
+            return
         for child in ast.iter_child_nodes(node):
             visit(child, scope, in_func, target if isinstance(node, (ast.BinOp, ast.UnaryOp)) else None)
 
@@ -92,9 +100,20 @@ def scaled_or_plain(run_once, prog, job: dict, raises) -> dict:
     the unscaled run does not raise: such a literal is a validation bound, not a tunable, and a job that trips it says
     nothing about the property (no verdict rather than an alarm).  ``raises(result) -> set`` extracts the exceptions
     seen in a result."""
-    res = run_once(prog, job)
     if not job.get("tunable_scale"):
-        return res
+        return run_once(prog, job)
+    from .errors import AnalysisError
+
+    try:
+        res = run_once(prog, job)
+    except AnalysisError as e:
+        # scaling drove the analysed code somewhere the engine has no model for: no verdict from the scaled twin
+        plain_job = {k: v for k, v in job.items() if k != "tunable_scale"}
+        plain = run_once(prog, plain_job)
+        plain["job"] = dict(plain["job"], tunable_scale=None, tunable_scale_dropped=[f"analysis: {str(e)[:120]}"])
+        if "name" in job and "name" in plain["job"]:
+            plain["job"]["name"] = job["name"]
+        return plain
     seen = raises(res)
     if not seen:
         return res
